@@ -88,6 +88,8 @@ def get_resource_schema(resource: XMLResource,
         else:
             kwargs['locations'] = locations
             if schema is None or isinstance(schema, XMLSchemaBase):
+                if kwargs.get('base_url') is None:
+                    kwargs['base_url'] = resource.base_url
                 return cls(schema_location, **kwargs)
             else:
                 return cls(schema, **kwargs)
